@@ -147,7 +147,7 @@ def check_cubic_interpolation(F, rep, rule):
     rep.analysed(fi)
     fo = Fold(fi, call=hook, opaque_types=r"Eigen::Matrix<double, -1").run()
     rows = loop_rows(fo)
-    ok, why = check_continuity_rows(fo, rows, "interp")
+    ok, why = check_continuity_rows(fo, rows, "interp", side, i)
     rep.check(ok, rule, "cubic|continuity-row|Interpolate", "row i+1: S'(r_{i+1}-) = S'(r_{i+1}+) over (f, f2)",
               "CubicSpline::Interpolate: " + why, fi.loc(), sample=True)
     fb = [f for f in F.find(CS + "AddBCToFitMatrix") if f.j["template"] in ("instantiation", "none")]
@@ -157,7 +157,7 @@ def check_cubic_interpolation(F, rep, rule):
     rep.analysed(fb)
     fo2 = Fold(fb, call=hook, opaque_types=r"Eigen::Matrix<double, -1").run()
     rows2 = loop_rows(fo2)
-    ok, why = check_continuity_rows(fo2, rows2, "fit")
+    ok, why = check_continuity_rows(fo2, rows2, "fit", side, i)
     rep.check(ok, rule, "cubic|continuity-row|AddBCToFitMatrix", "row i+1 of the constraint matrix is the same C1 condition over [f; f2]",
               "CubicSpline::AddBCToFitMatrix: " + why, fb.loc(), sample=True)
     # boundary rows
@@ -190,7 +190,7 @@ def loop_rows(fo):
     return rows
 
 
-def check_continuity_rows(fo, rows, mode):
+def check_continuity_rows(fo, rows, mode, side=None, isym=None):
     """rebuild the row equation from the stores and compare with the C1 condition at the knot right of interval a"""
     Al, Bl, Cl, Dl, Ar, Br, Cr, Dr = [Fn("%s_prime_%s" % (a, s)) for s in "lr" for a in "ABCD"]
     evs = rows["matrix"] + rows["rhs"]
@@ -239,7 +239,17 @@ def check_continuity_rows(fo, rows, mode):
             else:
                 return False, "constraint stored at column %s (neither f nor f2 block)" % idx[1]
     if not is_zero(got - want):
-        return False, "row equation is %s = 0, the C1 condition at knot i+1 is %s = 0" % (sp.expand(got), sp.expand(want))
+        ok_closed = False
+        if side is not None:
+            # the same condition written with other (equivalent) helper coefficients, e.g. -A_prime_r = B_prime_r: compare through their closed forms
+            from sympy.core.function import AppliedUndef
+            d_ = sp.expand(got - want)
+            for a_ in list(d_.atoms(AppliedUndef)):
+                if str(a_.func) in side and len(a_.args) == 1:
+                    d_ = d_.xreplace({a_: reindex(side[str(a_.func)], isym, a_.args[0])})
+            ok_closed = sp.simplify(d_) == 0
+        if not ok_closed:
+            return False, "row equation is %s = 0, the C1 condition at knot i+1 is %s = 0" % (sp.expand(got), sp.expand(want))
     return True, ""
 
 
